@@ -157,6 +157,9 @@ dtz_enrichz(struct dt_dt_s d, zif_t zone)
 		}
 #endif
 		if (zdiff > 0) {
+			/* the value may still carry the sign of the zone
+			 * it was read in (--from-zone) */
+			d.neg = 0;
 			d.zdiff = (uint16_t)(zdiff / ZDIFF_RES);
 		} else if (zdiff < 0) {
 			d.neg = 1;
